@@ -125,7 +125,7 @@ func runC06(cfg *vh.Config) error {
 	}
 
 	// ---- generated valid documents and their mutations
-	nValid := cfg.Scale(60, 2500)
+	nValid := cfg.Scale(60, 420)
 	for i := 0; i < nValid; i++ {
 		t := full
 		switch {
@@ -160,8 +160,40 @@ func runC06(cfg *vh.Config) error {
 		}
 	}
 
+	// ---- every property of every target confronted with values of every JSON shape:
+	// as the member itself, as an array element, as a map value
+	for _, t := range targets {
+		root := t.Env.Lookup(t.Env.Root)
+		for _, p := range root.Props {
+			for _, v := range codecgen.OddValues() {
+				for _, shape := range []string{"member", "element", "entry"} {
+					var val *codecgen.J
+					switch shape {
+					case "member":
+						val = v
+					case "element":
+						if p.Ty.Class != "array" {
+							continue
+						}
+						val = codecgen.Arr(codecgen.Str("x"), v)
+						if r.Bool() {
+							val = codecgen.Arr(v)
+						}
+					case "entry":
+						if p.Ty.Class != "map" {
+							continue
+						}
+						val = codecgen.Obj().Add("k", v)
+					}
+					doc := codecgen.Obj().Add(p.JSON, val).Print(nil)
+					add("odd value at a member position", t, doc, r.Chance(22))
+				}
+			}
+		}
+	}
+
 	// ---- random bytes / random token soup
-	nRand := cfg.Scale(150, 5000)
+	nRand := cfg.Scale(150, 4000)
 	soup := []string{"{", "}", "[", "]", ",", ":", `"sString"`, `"rString"`, `"sBar"`, `"!type"`, `"wrappedOneof"`, `"wOneofString"`, `"mapStringString"`, `"j5any"`, `"value"`, `"type"`, `"de3"`, "null", "true", "1", `"a"`, " ", "-", "1e5"}
 	for i := 0; i < nRand; i++ {
 		t := vh.Pick(r, targets)
@@ -293,8 +325,8 @@ func runC06(cfg *vh.Config) error {
 	}
 
 	res.Notes = append(res.Notes, fmt.Sprintf("stage: after lex %s", time.Since(t0)))
-	// ---- query stream (implementation only for now: crash / deadline oracle)
-	nQuery := cfg.Scale(400, 20000)
+	// ---- query stream: crash / deadline oracle, and the query model on the same url.Values
+	nQuery := cfg.Scale(400, 30000)
 	for i := 0; i < nQuery; i++ {
 		t := vh.Pick(r, targets)
 		q := genQuery(r, t)
@@ -311,6 +343,9 @@ func runC06(cfg *vh.Config) error {
 		}
 		if o.Kind == "ok" {
 			res.Sample(map[string]any{"stream": "query", "query": q.Encode(), "outcome": "ok"}, 10)
+		}
+		if len(q) <= 4 && o.Kind != "timeout" && (cfg.Tier == "quick" || i%8 == 0) {
+			em.add(queryCase(t, q, o), "query", input, map[string]any{"kind": o.Kind, "err": o.Err, "panic": o.Panic})
 		}
 		em.caseNo++
 	}
